@@ -35,6 +35,8 @@ def run(tier, replay_path=None):
                       [""] + alpha + sample([a + b for a in alpha for b in alpha], 120, rng)
                       + ["it's", "a\\", "\\'", "x' OR 1=1 --", "'); DROP TABLE t; --"])
         pos_set |= set(rnd[:50 if tier == "quick" else 600])
+        # long texts (beyond any length limit a dialect puts on comments or names), ending in characters that need escaping
+        pos_set |= {"y" * 2047 + "'", "ab\\" * 700 + "'"}
         strings = list(dict.fromkeys(strings + sorted(pos_set)))
         cases = [{"id": i, "kind": "str", "s": s, "pos": s in pos_set} for i, s in enumerate(strings)]
         # byte strings: all of length <= 1 (quick) / <= 2 (thorough) + boundary lengths + random
